@@ -20,6 +20,23 @@ pub struct CfgCase {
     /// candidate directories (as spelled in the environment / defaults) that contain the file
     pub present: Vec<String>,
     pub stdfs: bool,
+    /// the name looked up: a flat file name or a name of several components
+    #[serde(default = "default_cfg_name")]
+    pub name: String,
+}
+
+fn default_cfg_name() -> String {
+    CFG_NAME.to_string()
+}
+
+const CFG_NAMES: &[&str] = &[CFG_NAME, "rvh-c18-app/sub/conf.toml"];
+
+fn write_cfg_file(dir: &str, name: &str) {
+    let p = Path::new(dir).join(name);
+    if let Some(par) = p.parent() {
+        let _ = std::fs::create_dir_all(par);
+    }
+    let _ = std::fs::write(p, b"x");
 }
 
 #[derive(Debug, Clone, Serialize, Deserialize)]
@@ -31,7 +48,7 @@ const HOMES: &[Option<&str>] = &[None, Some(""), Some("/home/u")];
 const XHOME: &[Option<&str>] = &[None, Some(""), Some("/x/val")];
 const LISTS: &[Option<&str>] = &[None, Some(""), Some("/l1"), Some("/l1:/l2"), Some(":/l1::/l2:")];
 /// lists for the getter cross-product: additionally the root directory as an entry and entries with trailing separators
-const LISTS_G: &[Option<&str>] = &[None, Some(""), Some("/l1"), Some("/l1:/l2"), Some(":/l1::/l2:"), Some("/"), Some("/l1/:/:/l2//")];
+const LISTS_G: &[Option<&str>] = &[None, Some(""), Some("/l1"), Some("/l1:/l2"), Some(":/l1::/l2:"), Some("/"), Some("/l1/:/:/l2//"), Some("/l1:/l1::/l1:/l2")];
 const RUNTIME: &[Option<&str>] = &[None, Some("/run/u")];
 
 fn split_list(v: &str) -> Vec<String> {
@@ -198,8 +215,8 @@ pub fn check_cfg(case: &CfgCase) -> CaseResult {
     );
     let (resp, contains): (Value, Vec<bool>) = if case.stdfs {
         // files were prepared on disk by the caller; observe them independently
-        let contains = cands.iter().map(|d| std::fs::symlink_metadata(Path::new(d).join(CFG_NAME)).is_ok()).collect();
-        match probe(env, &[json!({"op":"config_dir_std","name":CFG_NAME})]) {
+        let contains = cands.iter().map(|d| std::fs::symlink_metadata(Path::new(d).join(&case.name)).is_ok()).collect();
+        match probe(env, &[json!({"op":"config_dir_std","name":case.name})]) {
             Ok(r) => (r[0].clone(), contains),
             Err(e) => {
                 ctx().inconclusive(&format!("envprobe child failed: {}", e));
@@ -207,9 +224,9 @@ pub fn check_cfg(case: &CfgCase) -> CaseResult {
             },
         }
     } else {
-        let files: Vec<String> = case.present.iter().map(|d| format!("{}/{}", d.trim_end_matches('/'), CFG_NAME)).collect();
+        let files: Vec<String> = case.present.iter().map(|d| format!("{}/{}", d.trim_end_matches('/'), case.name)).collect();
         let contains = cands.iter().map(|d| case.present.contains(d)).collect();
-        match probe(env, &[json!({"op":"config_dir_mem","name":CFG_NAME,"files":files})]) {
+        match probe(env, &[json!({"op":"config_dir_mem","name":case.name,"files":files})]) {
             Ok(r) => (r[0].clone(), contains),
             Err(e) => {
                 ctx().inconclusive(&format!("envprobe child failed: {}", e));
@@ -233,14 +250,14 @@ pub fn check_cfg(case: &CfgCase) -> CaseResult {
     if !same {
         let first_hit = contains.iter().position(|c| *c).map(|i| i.to_string()).unwrap_or("none".into());
         return Err(Failure::new(
-            format!("vfs.config_dir|value|{}|{}|first-hit={}", if case.stdfs { "stdfs" } else { "memfs" }, cls, first_hit),
-            format!("config_dir({:?}) = {:?} want {:?}; candidates {:?} contain {:?}; env {:?}", CFG_NAME, got, want, cands, contains, env),
+            format!("vfs.config_dir|value|{}|{}|first-hit={}{}", if case.stdfs { "stdfs" } else { "memfs" }, cls, first_hit, if case.name.contains('/') { "|multi-component-name" } else { "" }),
+            format!("config_dir({:?}) = {:?} want {:?}; candidates {:?} contain {:?}; env {:?}", case.name, got, want, cands, contains, env),
         ));
     }
     Ok(())
 }
 
-const SUDO_VALUES: &[Option<&str>] = &[None, Some(""), Some("1234"), Some("0"), Some("-1"), Some("12x"), Some("4294967296"), Some("4294967295"), Some(" 7"), Some("7 ")];
+const SUDO_VALUES: &[Option<&str>] = &[None, Some(""), Some("1234"), Some("0"), Some("-1"), Some("12x"), Some("4294967296"), Some("4294967295"), Some(" 7"), Some("7 "), Some("2147483648"), Some("4294967294")];
 
 pub fn check_rids(case: &RidsCase) -> CaseResult {
     let env = &case.env;
@@ -275,7 +292,7 @@ fn set(env: &mut Env, k: &str, v: &Option<&str>) {
 }
 
 fn xdg_env(idx: u64) -> Env {
-    // mixed radix decode: HOME(3) x 4 *_HOME(3 each) x 3 lists(7 each) x RUNTIME(2) = 166698
+    // mixed radix decode: HOME(3) x 4 *_HOME(3 each) x 3 lists(8 each) x RUNTIME(2) = 248832
     let mut i = idx;
     let mut take = |n: u64| {
         let r = i % n;
@@ -288,22 +305,22 @@ fn xdg_env(idx: u64) -> Env {
     set(&mut e, "XDG_DATA_HOME", &XHOME[take(3)]);
     set(&mut e, "XDG_CACHE_HOME", &XHOME[take(3)]);
     set(&mut e, "XDG_STATE_HOME", &XHOME[take(3)]);
-    set(&mut e, "XDG_CONFIG_DIRS", &LISTS_G[take(7)]);
-    set(&mut e, "XDG_DATA_DIRS", &LISTS_G[take(7)]);
-    set(&mut e, "PATH", &LISTS_G[take(7)]);
+    set(&mut e, "XDG_CONFIG_DIRS", &LISTS_G[take(8)]);
+    set(&mut e, "XDG_DATA_DIRS", &LISTS_G[take(8)]);
+    set(&mut e, "PATH", &LISTS_G[take(8)]);
     set(&mut e, "XDG_RUNTIME_DIR", &RUNTIME[take(2)]);
     e
 }
-const XDG_SPACE: u64 = 3 * 81 * 343 * 2;
+const XDG_SPACE: u64 = 3 * 81 * 512 * 2;
 
 pub fn run(c: &Ctx) {
-    c.set_rule("one child process per configuration (env_clear + exactly the generated variables). (a) getters: cross-product HOME{unset,'',value} x XDG_{CONFIG,DATA,CACHE,STATE}_HOME{unset,'',value} x XDG_CONFIG_DIRS/XDG_DATA_DIRS/PATH{unset,'','/l1','/l1:/l2',':/l1::/l2:','/','/l1/:/:/l2//'} x XDG_RUNTIME_DIR{unset,value} = 166698 configurations (thorough: all; quick: seeded 4000 + corner cases). (b) vfs.config_dir(name): HOME x XDG_CONFIG_HOME {unset,value} x XDG_CONFIG_DIRS{unset,'','/l1','/l1:/l2',':/l1::/l2:'} x every subset of candidate directories containing the file, on Memfs (built in the child) and on Stdfs (sandbox on tmpfs). (c) getrids: SUDO_UID x SUDO_GID in 10 values each x 6 (uid,gid) pairs. Oracle: reference functions written from the statement / XDG spec. Non-trivial = configuration with at least one variable set-but-empty or a list with empty segments, or a config_dir case whose first candidate lacks the file; distinct by configuration.");
+    c.set_rule("one child process per configuration (env_clear + exactly the generated variables). (a) getters: cross-product HOME{unset,'',value} x XDG_{CONFIG,DATA,CACHE,STATE}_HOME{unset,'',value} x XDG_CONFIG_DIRS/XDG_DATA_DIRS/PATH{unset,'','/l1','/l1:/l2',':/l1::/l2:','/','/l1/:/:/l2//','/l1:/l1::/l1:/l2' (repeated entries are kept)} x XDG_RUNTIME_DIR{unset,value} = 248832 configurations (thorough: all; quick: seeded 4000 + corner cases). (b) vfs.config_dir(name): HOME x XDG_CONFIG_HOME {unset,value} x XDG_CONFIG_DIRS{unset,'','/l1','/l1:/l2',':/l1::/l2:'} x every subset of candidate directories containing the file x {flat name, name of three components}, on Memfs (built in the child) and on Stdfs (sandbox on tmpfs). (c) getrids: SUDO_UID x SUDO_GID in 12 values each (incl. ids above 2^31) x 6 (uid,gid) pairs. Oracle: reference functions written from the statement / XDG spec. Non-trivial = configuration with at least one variable set-but-empty or a list with empty segments, or a config_dir case whose first candidate lacks the file; distinct by configuration.");
     c.assume("set-but-empty *_HOME / XDG_RUNTIME_DIR: value verbatim or spec default both admitted; HOME='' defaults: relative or rooted spelling admitted; PATH unset: totality only");
     // (a) getters
     let n_quick = 4000u64;
     let total = c.tier.pick(n_quick, XDG_SPACE);
     par_for(total, 8, |j| {
-        let idx = if c.tier == Tier::Thorough { j } else if j < 4 { [0, XDG_SPACE - 1, 1, 3 * 81 * 171][j as usize] } else { splitmix(c.seed ^ splitmix(1800 + j)) % XDG_SPACE };
+        let idx = if c.tier == Tier::Thorough { j } else if j < 4 { [0, XDG_SPACE - 1, 1, 3 * 81 * 255][j as usize] } else { splitmix(c.seed ^ splitmix(1800 + j)) % XDG_SPACE };
         let case = XdgCase { env: xdg_env(idx) };
         mark("xdg", &serde_json::to_string(&case).unwrap());
         c.eval(1);
@@ -334,7 +351,9 @@ pub fn run(c: &Ctx) {
                 cands.dedup();
                 for mask in 0..(1u32 << cands.len()) {
                     let present: Vec<String> = cands.iter().enumerate().filter(|(i, _)| mask & (1 << i) != 0).map(|(_, d)| d.clone()).collect();
-                    cfg_cases.push(CfgCase { env: e.clone(), present, stdfs: false });
+                    for n in CFG_NAMES {
+                        cfg_cases.push(CfgCase { env: e.clone(), present: present.clone(), stdfs: false, name: n.to_string() });
+                    }
                 }
             }
         }
@@ -392,7 +411,9 @@ pub fn run(c: &Ctx) {
                 cands.dedup();
                 for mask in 0..(1u32 << cands.len()) {
                     let present: Vec<String> = cands.iter().enumerate().filter(|(i, _)| mask & (1 << i) != 0).map(|(_, d)| d.clone()).collect();
-                    std_cases.push(CfgCase { env: e.clone(), present, stdfs: true });
+                    for n in CFG_NAMES {
+                        std_cases.push(CfgCase { env: e.clone(), present: present.clone(), stdfs: true, name: n.to_string() });
+                    }
                 }
             }
         }
@@ -411,7 +432,7 @@ pub fn run(c: &Ctx) {
                     let _ = std::fs::remove_dir_all(d);
                     if case.present.contains(d) {
                         let _ = std::fs::create_dir_all(d);
-                        let _ = std::fs::write(Path::new(d).join(CFG_NAME), b"x");
+                        write_cfg_file(d, &case.name);
                     }
                 }
             }
@@ -458,7 +479,7 @@ pub fn replay(kind: &str, case: &Value) -> Option<CaseResult> {
                         let _ = std::fs::remove_dir_all(&d);
                         if cs.present.contains(&d) {
                             let _ = std::fs::create_dir_all(&d);
-                            let _ = std::fs::write(Path::new(&d).join(CFG_NAME), b"x");
+                            write_cfg_file(&d, &cs.name);
                         }
                     }
                 }
